@@ -47,7 +47,8 @@ def snapshot(x, depth=0):
         return (type(x).__name__, sorted(d.items(), key=lambda kv: kv[0]))
     from unified_planning.model.metrics import MinimizeActionCosts
     if isinstance(x, MinimizeActionCosts):
-        return ("MinimizeActionCosts", [(a.name, repr(c)) for a, c in x.costs.items()], repr(x.default))
+        # the keys are Action OBJECTS: they must be the problem's own (clone re-keys the metric)
+        return ("MinimizeActionCosts", [(snapshot(a, depth + 1), repr(c)) for a, c in x.costs.items()], repr(x.default))
     return repr(x)
 
 
